@@ -235,6 +235,16 @@ def run_mutators(ns, mon, case):
         viol.append(V("clone:shares-storage", "clone() shares storage with its source"))
     if np.shares_memory(d.data, x.data):
         viol.append(V("detach:shares-storage", "detach() shares storage with its source"))
+    x0 = T(rng.standard_normal((3, 4)))                  # a source that does not require grad (target, buffer, frozen parameter)
+    with ns.sg.no_grad():
+        x1 = x * 2.0
+    for nm, src in (("non-requiring source", x0), ("result computed under no_grad", x1)):
+        dd = src.detach(); cc = src.clone()
+        n += 2
+        if dd is src or np.shares_memory(dd.data, src.data):
+            viol.append(V("detach:shares-storage", f"detach() of a {nm} shares storage with it"))
+        if cc is src or np.shares_memory(cc.data, src.data):
+            viol.append(V("clone:shares-storage", f"clone() of a {nm} shares storage with it"))
     before = x.data.copy()
     c.data[...] = 0; d.data[...] = 0
     if not np.array_equal(x.data, before):
@@ -258,6 +268,18 @@ def run_mutators(ns, mon, case):
         viol.append(V("optimizer-step:no-effect", "optimizer.step did not update the parameter"))
     if not np.array_equal(lin.weight._grad, gw):
         viol.append(V("optimizer-step:modified-gradient", "optimizer.step changed the parameter's gradient"))
+    # a frozen parameter that still carries a gradient from before it was frozen lies outside every later graph
+    fl = nn.Linear(4, 3)
+    xin = T(rng.standard_normal((5, 4)).astype(np.float32), requires_grad=True)
+    fl(xin).sum().backward()
+    fl.freeze()
+    stale = [None if p_._grad is None else p_._grad.copy() for p_ in fl.parameters()]
+    xin2 = T(rng.standard_normal((5, 4)).astype(np.float32), requires_grad=True)
+    (fl(xin2) * 3.0).sum().backward()
+    n += 1
+    for p_, s_ in zip(fl.parameters(), stale):
+        if s_ is not None and (p_._grad is None or not np.array_equal(p_._grad, s_)):
+            viol.append(V("backward:modified-gradient-of-frozen-parameter", "a backward call changed the gradient of a frozen parameter (a tensor outside the differentiated graph)"))
     t1 = T(np.ones((4, 6), dtype=np.float32)); t2 = T(np.ones((4, 6), dtype=np.float32))
     s_t2 = snap([t2.data])
     for f in (ns.init.uniform_, ns.init.normal_, ns.init.xavier_uniform_, ns.init.kaiming_normal_, ns.init.zeros_, ns.init.ones_):
